@@ -231,7 +231,8 @@ void Terminal::Impl::executeTreeCmd(SessionContext *s, const Args &args)
         auto top_node_token = node_path.empty() ? root_token_ : node_path.back().second;
         auto top_node = nodes_.at(top_node_token);
         if (top_node == nullptr) {
-            ss << node_path.back().first << " node has been deleted.\r\n";
+            //! the path is empty when the root node itself has been deleted
+            ss << (node_path.empty() ? "/" : node_path.back().first) << " node has been deleted.\r\n";
         } else if (top_node->type() == NodeType::kDir) {
             vector<vector<NodeInfo>> node_token_stack;    //!< 遍历栈
             string indent_str;  //!< 缩进字串
